@@ -232,5 +232,5 @@ MANIFEST = {
     "text": "Generated search; each generated font is compiled under every optimizeCFF x subroutinizer x cffVersion combination and the drawings "
     "(read back from the saved bytes, subroutines expanded), advances and raw layout tables are compared against the unoptimised CFF1 reference. "
     "Counterexample search only.",
-    "note": "Trusts fontTools' charstring reader. Equality of drawings is modulo the N1 normal form for optimizeCFF>=1 and exact among optimizeCFF=0 combinations.",
+    "note": "Trusts fontTools' charstring reader. Equality of drawings is modulo the N1 normal form (plus equal contour start points) for optimizeCFF>=1 and exact among optimizeCFF=0 combinations; every glyph of the compiled font is compared, incl. a synthesised .notdef. The compreffor combination runs in a worker process under a 20 s wall-clock bound (beyond it: inconclusive, counted).",
 }
